@@ -32,6 +32,7 @@ RULE = ("close causes {force_disconnect, disconnect, cancel, reuse probe, EOF, R
 
 def shard(ctx: Ctx) -> None:
     sweep.standard_sweep(ctx, PROP)
+    sweep.connect_fault_sweep(ctx, PROP)   # resolver / TCP / setsockopt / rejection worlds: a failed phase must leave the object CLOSED
     sweep.same_turn_pairs_sweep(ctx, PROP)
     sweep.stalled_connect_sweep(ctx, PROP)
     if ctx.thorough:
